@@ -12,7 +12,13 @@ CFG = {
                           "RpmVerif.C12.compressor_tables_agree", "RpmVerif.C12.default_compressor_is_identity", "RpmVerif.C12.compressor_names_ascii",
                           "RpmVerif.C12.payload_compressor_bridge", "RpmVerif.C12.extract_package_hostile",
                           "RpmVerif.C12.extract_package_total", "RpmVerif.C12.digest_table_decides",
-                          "RpmVerif.C12.digest_algo_fallbacks"],
+                          "RpmVerif.C12.digest_algo_fallbacks",
+                          # AUDIT2 c38 / a20: built packages at the package level, NAME_MAX
+                          "RpmVerif.C12.build_input", "RpmVerif.C12.build_benign", "RpmVerif.C12.extract_package_benign",
+                          "RpmVerif.C12.wantNode_builtItem", "RpmVerif.C12.create_long_refused", "RpmVerif.C12.created_names_short",
+                          "RpmVerif.C12.long_name_witness", "RpmVerif.C12.name_max_witness",
+                          # AUDIT2 a12 / a13: partial extraction under a damaged payload, codecs that are not compiled in
+                          "RpmVerif.C12.input_items_prefix", "RpmVerif.C12.input_items_clean", "RpmVerif.C12.input_unsupported"],
     "trivial_branches": ["parse-err"],
     "rule": "every case = one package extracted by the real Package::extract inside a chroot jail with decoys outside /target "
             "(snapshot of the whole jail before/after). Builder-made packages are ALSO extracted as the un-reparsed Package value build() returned (op extractmem12: the value is rebuilt "
@@ -26,8 +32,15 @@ CFG = {
             "wrong hex lengths - SHA-224: 56 read, 60 refused -, numbers that are no algorithm such as 2 = SHA-1, SHA-3 numbers, a tag of the wrong type, "
             "lengths counted in bytes), compressor names next to the accepted ones, the cpio name-size limit (4096 read, 4097 refused), destination variants (exists, no parent, nested, is a link), builder-made packages (all 12 permission bits on "
             "files and directories, setgid inheritance, files under '/', nested and explicit directories, links, gzip / zstd / xz / bzip2 payloads, the empty package, "
-            "hostile destinations the builder accepts), then seeded random builder-made benign packages and seeded random hand-encoded hostile packages. "
+            "hostile destinations the builder accepts), NAME_MAX (components of 255 bytes - as directory name, base name, link name, three in one path, with multi-byte characters across "
+            "the limit - and of 256 bytes: in the middle of a path, as the last component, under ancestors that still have to be created, as a link name, inside a link target; built and hand-encoded), "
+            "damaged / truncated COMPRESSED payloads (builder-made packages of every codec with 1, 8, an eighth, a half, seven eighths of the compressed stream cut off; hand-assembled packages, named and stripped entries, "
+            "every codec, six cuts: the entries decoded before the damage are extracted, then extract fails), a bzip2 package against rpm-rs built with its default features (default_features_variant: directory names created, then UnsupportedCompressorType), "
+            "names that are not UTF-8 (directory, base name, link target; stripped and named archive entries), builder-made packages with the destination spelled relatively / through '..' / through a "
+            "symbolic link of the caller's (via=), other umasks (0, 002, 027, 077, 133, 777: part of the model's state, visible in the directories create_dir_all makes) and an unprivileged user who owns the jail (uid=65534; "
+            "predicted with the root semantics where permission bits cannot bind, otherwise only containment / no-panic are judged), then seeded random builder-made benign packages and seeded random hand-encoded hostile packages. "
             "Non-trivial = the package parses; distinct = distinct request lines.",
+    "default_features_variant": True,
     "exhaustive": False,
     "shards": {"quick": 1, "thorough": 4},
     "shrink": False,
@@ -35,7 +48,10 @@ CFG = {
     "trusted_base": ["POSIX/Linux semantics of mkdir, open(O_CREAT|O_TRUNC), chmod, lstat, unlink, symlink and of the kernel's path walk (modelled in Model/Fs.lean; "
                      "validated by the jail snapshots, not proved)",
                      "std: fs::create_dir_all (recursive formulation), Path::join / strip_prefix / components (modelled; validated by the correspondence)",
-                     "the extraction runs as root with umask 022 (permission bits never make a call fail); names < 256 bytes, paths < 4096 bytes",
+                     "the extraction runs as root (permission bits never make a call fail; EACCES / EPERM are not modelled: unprivileged runs are predicted only for benign packages whose directories keep u+wx - "
+                     "see Driver/C12.lean judgeUnprivilegedFaithful and corpus/C12/unprivileged-readonly-dir.case for the possible defect left outside); the umask is a field of the model's state (022 by default); NAME_MAX = 255 is modelled at the creating calls (mkdir / open(O_CREAT) / symlink answer "
+                     "ENAMETOOLONG for a longer last component; a walk that merely looks such a name up answers ENOENT in the model, ENAMETOOLONG in the kernel - an error either way; validated by the 255 / 256-byte cases); "
+                     "paths < 4096 bytes (PATH_MAX is not modelled)",
                      "Model/PkgFiles.lean decodes the package for the driver: no code of its own but the composition of Acc.getFileEntries (C04/C05/C06), "
                      "Acc.getPayloadCompressorVariant and Cpio.iterate (C07) over the tables scraped from the source (file digest lengths, cpio constants, "
                      "compressor names, default / identity compressor variant) - stated by the input_* theorems; exercised on every case"],
@@ -46,7 +62,12 @@ CFG = {
                   "or removes nothing outside the destination, every logged path being below it (extract_hostile_wf: the same for any tree-shaped file system "
                   "with no assumption on the destination); (extract_benign) a benign (built) package extracted into a vacant destination ends ok, is contained "
                   "and leaves every directory / file / link entry at destination+path with exactly its permission bits, content and link target; "
-                  "(extract_total) no run panics; (extract_log_sound) the model's log accounts for every change. The views are tied to packages: "
+                  "(build_input, build_benign, extract_package_benign) what extract reads from the package PackageBuilder::build returns - for every configuration, clock, hash function, uid / gid and codec - is the builder's own directory "
+                  "set and one item per builder file in path order (C06 readback_file_entries, C07 files_of_build through Pipeline.build_files_roundtrip), so for every built package whose input is benign extraction into a vacant destination "
+                  "ends ok, is contained, and EVERY builder file is at destination + its path as the node its mode, content and link target prescribe (wantNode_builtItem); benign now includes shortNames (no component longer than "
+                  "NAME_MAX = 255 bytes): (create_long_refused, created_names_short) mkdir / File::create / symlink refuse a longer last component with ENAMETOOLONG and never create one, (long_name_witness) a failing create_dir_all is not atomic - "
+                  "the ancestors created before the failing mkdir stay (createDirAllLeft), contained like everything else (extract_hostile covers it), (name_max_witness) 255 bytes are extracted completely; (input_items_prefix, input_items_clean, input_unsupported) with a damaged compressed payload extract sees an initial segment of the intact package's items (C07 files_chunked_prefix carried over) and then an error - a partial extraction, contained like every run -, "
+                  "nothing of the damage when the cpio trailer lies before it, and no item at all when the codec is not compiled in; (extract_total) no run panics; (extract_log_sound) the model's log accounts for every change. The views are tied to packages: "
                   "(input_of_files, input_files_failed, input_items_are_iteration, input_index_in_range) what extract reads from a package is get_file_entries, "
                   "get_payload_compressor and the cpio iteration of the C05 / C07 models composed as Package::extract composes them, the items being exactly the Ok prefix "
                   "of the iteration under the metadata of the header file each entry designates (input_item_designated: C07 pairing_by_name "
